@@ -69,10 +69,12 @@ func genSignerCase(r *Rng, directed int) SignerCase {
 		}
 		switch m := r.Intn(100); {
 		case m < 60:
-		case m < 68:
+		case m < 66:
 			op.Mode = "fail-new"
-		case m < 74:
+		case m < 70:
 			op.Mode = "fail-bak"
+		case m < 76:
+			op.Mode = "fail-rename"
 		default:
 			op.Mode = fmt.Sprintf("crash%d", 1+r.Intn(4))
 		}
@@ -191,6 +193,15 @@ func runSignerCase(idx int, c SignerCase, workdir string) (string, []MonitorHit,
 			os.Remove(file + ".bak")
 			os.Mkdir(file+".bak", 0755)
 			cleanup = func() { os.Remove(file + ".bak") }
+		case "fail-rename":
+			// the temporary file vanishes before it is moved into place: the rename itself fails
+			mode = 1
+			os.RemoveAll(file + ".new")
+			verifhook.Set(func(name string) {
+				if name == "wfa:before-rename" {
+					os.Remove(file + ".new")
+				}
+			})
 		case "crash1", "crash2", "crash3":
 			mode = 2
 			crashAt = int(op.Mode[5] - '0')
@@ -297,7 +308,7 @@ func engSigner(args []string) error {
 		return err
 	}
 	meta := NewMeta("signer", c.Seed)
-	meta.Rule = "case = request history for one PrivValidator with a real signer file: proposals/prevotes/precommits moving forward, repeating, conflicting and regressing in height, round and step; each request ends normally, with a failing write (.new or .bak not writable), or with the process dying at one of the four failpoints of WriteFileAtomic followed by a reload; explicit reloads; distinct = case line; non-trivial = a crash or a refusal occurred"
+	meta.Rule = "case = request history for one PrivValidator with a real signer file: proposals/prevotes/precommits moving forward, repeating, conflicting and regressing in height, round and step; each request ends normally, with a failing write (.new or .bak not writable, or the rename into place failing), or with the process dying at one of the four failpoints of WriteFileAtomic followed by a reload; explicit reloads; distinct = case line; non-trivial = a crash or a refusal occurred"
 	var cases []SignerCase
 	if c.Replay != "" {
 		var rc struct{ Case SignerCase `json:"case"` }
